@@ -117,6 +117,8 @@ func workC05(c *shardCtx) {
 			}
 		}
 	}
+	// no panic whatever iteration order the runtime picks for a map
+	mapOrderPass(c, "C05", true)
 	c.res.Notes["pumped_families"] = len(fams)
 	c.res.Notes["statement_budget"] = budget
 }
